@@ -3150,12 +3150,12 @@ def logical_not(x: ArrayOrScalar) -> Array | bool:
     assert isinstance(x, Array)
 
     from pytato.utils import with_indices_for_broadcasted_shape
-    return IndexLambda(expr=with_indices_for_broadcasted_shape(prim.Variable("_in0"),
-                                                          x.shape,
-                                                          x.shape),
+    return IndexLambda(expr=prim.LogicalNot(
+                                with_indices_for_broadcasted_shape(
+                                    prim.Variable("_in0"), x.shape, x.shape)),
                        shape=x.shape,
                        dtype=np.dtype(np.bool_),
-                       bindings={"_in0": x},
+                       bindings=constantdict({"_in0": x}),
                        tags=_get_default_tags(),
                        non_equality_tags=_get_created_at_tag(),
                        axes=_get_default_axes(len(x.shape)),
